@@ -7,7 +7,9 @@ import json, os, re, subprocess, sys, time, hashlib, shutil, threading, uuid, it
 from concurrent.futures import ThreadPoolExecutor, wait, FIRST_COMPLETED
 
 VERIF = '/verif'
-BUILD = VERIF + '/.build'
+BUILD = os.environ.get('VERIF_BUILD') or VERIF + '/.build'      # overridden only by bin/seed-try (scratch worktree of a seeded change)
+REPO = os.environ.get('VERIF_REPO') or '/repo'
+OUT = os.environ.get('VERIF_OUT') or VERIF     # evidence/ and replays/ live here (bin/seed-try redirects them)
 SPEC = VERIF + '/spec'
 JAR = '/opt/veriftools/tla/tla2tools.jar:/opt/veriftools/tla/CommunityModules-deps.jar'
 NCPU = 16
@@ -31,7 +33,7 @@ def ensure_build(variant='plain'):
     os.makedirs(BUILD, exist_ok=True)
     with open(BUILD + '/.lock-harness-' + variant, 'w') as lk:
         fcntl.flock(lk, fcntl.LOCK_EX)
-        r = subprocess.run(['make', '-C', VERIF + '/harness', '-j16', 'V=' + variant], capture_output=True, text=True)
+        r = subprocess.run(['make', '-C', VERIF + '/harness', '-j16', 'V=' + variant, 'B=' + BUILD, 'REPO=' + REPO], capture_output=True, text=True)
     if r.returncode != 0:
         raise MachineryError('harness build failed:\n' + r.stdout[-3000:] + r.stderr[-3000:])
     log('build %s ok in %.1fs' % (variant, time.time() - t0))
@@ -401,8 +403,8 @@ class Check:
     # ---- finish
     def finish(self):
         wall = time.time() - self.t0
-        os.makedirs(VERIF + '/evidence', exist_ok=True)
-        os.makedirs(VERIF + '/replays', exist_ok=True)
+        os.makedirs(OUT + '/evidence', exist_ok=True)
+        os.makedirs(OUT + '/replays', exist_ok=True)
         for fid, (f, n) in self.known_hits.items():
             print('KNOWN-FINDING: property=%s %s (%d case(s) in this run)' % (self.pid, f['what'], n))
         vio_paths = []
@@ -414,7 +416,7 @@ class Check:
             if h in seen:
                 continue
             seen.add(h)
-            path = '%s/replays/%s-%s.json' % (VERIF, self.pid, h)
+            path = '%s/replays/%s-%s.json' % (OUT, self.pid, h)
             if len(vio_paths) < 5:
                 json.dump({'property': self.pid, 'line': r, 'verdict': verdict, 'tier': self.tier, 'seed': self.seed},
                           open(path, 'w'), indent=1)
@@ -434,9 +436,9 @@ class Check:
         ev = {'property_id': self.pid, 'tier': self.tier if self.tier in ('quick', 'thorough') else 'quick',
               'seed': self.seed, 'level': self.level,
               'coverage': cov, 'assumptions': self.assumptions, 'wall_s': round(wall, 2), 'violations': len(seen)}
-        tmp = '%s/evidence/%s.json.tmp' % (VERIF, self.pid)
+        tmp = '%s/evidence/%s.json.tmp' % (OUT, self.pid)
         json.dump(ev, open(tmp, 'w'), indent=1)
-        os.replace(tmp, '%s/evidence/%s.json' % (VERIF, self.pid))
+        os.replace(tmp, '%s/evidence/%s.json' % (OUT, self.pid))
         log('%s %s: %d evaluations (%d distinct), %d states, %d violations, %d unjudgeable, %.1fs' % (
             self.pid, self.tier, self.evaluations, len(self.distinct), self.states, len(seen), self.unjudgeable, wall))
         if seen:
